@@ -15,17 +15,38 @@ type CodeWriter struct {
 	WriteSemicolons bool
 
 	pendings []rune
+	// lastByte is the last byte written to the buffer (0 if nothing was written yet)
+	lastByte byte
 }
 
 // emit appends text to the buffer and keeps the source mapper's generated
 // position in step with it. Every write to the buffer goes through emit or
 // WriteRune, including layout whitespace and comments.
 func (cw *CodeWriter) emit(s string) {
+	if len(s) == 0 {
+		return
+	}
+	cw.separateSigns(s[0])
 	cw.Builder.WriteString(s)
+	cw.lastByte = s[len(s)-1]
 	if cw.Mapper == nil {
 		return
 	}
 	cw.Mapper.AdvanceString(s)
+}
+
+// separateSigns keeps two adjacent tokens from fusing into another token:
+// `a - -b` must not be written as `a--b`, nor `a + ++b` as `a+++b`. A space is
+// written when the next token starts with the sign the buffer ends with.
+func (cw *CodeWriter) separateSigns(next byte) {
+	if (next != '+' && next != '-') || cw.lastByte != next {
+		return
+	}
+	cw.Builder.WriteByte(' ')
+	cw.lastByte = ' '
+	if cw.Mapper != nil {
+		cw.Mapper.AdvanceColumn(1)
+	}
 }
 
 // WriteString writes a string to the buffer
@@ -37,7 +58,9 @@ func (cw *CodeWriter) WriteString(s string) {
 // WriteRune writes a rune to the buffer
 func (cw *CodeWriter) WriteRune(r rune) {
 	cw.flushPending()
+	cw.separateSigns(byte(r))
 	cw.Builder.WriteRune(r)
+	cw.lastByte = byte(r)
 	if cw.Mapper == nil {
 		return
 	}
